@@ -333,6 +333,64 @@ def binder_list(s):
     return out
 
 
+def fold_while_let_next(s):
+    """`let mut IT = EXPR; while let Some(PAT) = IT.next() {`  ->  `for PAT in EXPR {`  (the definition of
+    `for`, read backwards) for every occurrence where IT is used nowhere else in the text. Returns the new
+    text and the list of folded iterator names."""
+    folded = []
+    while True:
+        toks = rustlex.tokens(s)
+        n = len(toks)
+        done = True
+        for i in range(n - 9):
+            if [t[0] for t in toks[i:i + 4]] != ['while', 'let', 'Some', '(']:
+                continue
+            # closing paren of Some( .. )
+            depth, j = 0, i + 3
+            while j < n:
+                if toks[j][0] == '(':
+                    depth += 1
+                elif toks[j][0] == ')':
+                    depth -= 1
+                    if depth == 0:
+                        break
+                j += 1
+            if j + 7 >= n or toks[j + 1][0] != '=' or not _IDENT_RE.match(toks[j + 2][0]):
+                continue
+            it = toks[j + 2][0]
+            if [t[0] for t in toks[j + 3:j + 8]] != ['.', 'next', '(', ')', '{']:
+                continue
+            # the statement directly before: `let mut IT = EXPR ;`
+            if i < 1 or toks[i - 1][0] != ';':
+                continue
+            k = i - 2
+            depth = 0
+            while k >= 0:
+                u = toks[k][0]
+                if u in (')', ']', '}'):
+                    depth += 1
+                elif u in ('(', '[', '{'):
+                    if depth == 0:
+                        break
+                    depth -= 1
+                elif depth == 0 and u == ';':
+                    break
+                k -= 1
+            st = k + 1
+            if [t[0] for t in toks[st:st + 4]] != ['let', 'mut', it, '=']:
+                continue
+            if sum(1 for t in toks if t[0] == it) != 2:
+                continue
+            expr = s[toks[st + 4][1]:toks[i - 1][1]].strip()
+            pat = s[toks[i + 4][1]:toks[j][1]].strip()
+            s = s[:toks[st][1]] + 'for ' + pat + ' in ' + expr + ' {' + s[toks[j + 7][2]:]
+            folded.append(it)
+            done = False
+            break
+        if done:
+            return s, folded
+
+
 def normalise_locals(unit, s, log):
     """Rule E21 (automatic form): the contracts name locals of the real functions. contracts/binders.json
     holds, per unit, the names the unchanged tree gives to its `let` / `for` binders, in order. If the
@@ -351,6 +409,14 @@ def normalise_locals(unit, s, log):
         except Exception:
             _BINDERS = {}
     base = (_BINDERS.get(getattr(unit, 'group', None)) or {}).get(unit.id)
+    if base and len(cur) > len(base):
+        # Rule E6 read backwards: an explicit iterator variable driven by `while let Some(x) = it.next()`
+        # where the unchanged tree has a `for` loop (one binder fewer)
+        s2, folded = fold_while_let_next(s)
+        if folded and len(binder_list(s2)) == len(base):
+            log.append({'unit': unit.id, 'rule': 'E6', 'what': '`let mut %s = E; while let Some(x) = %s.next()` folded back into `for x in E`' % (folded[0], folded[0])})
+            s = s2
+            cur = binder_list(s)
     if not base or len(base) != len(cur) or base == cur:
         return s
     mp = {}
